@@ -93,7 +93,9 @@ pub fn judge(j: &Judge, sc: &Scenario, info: &mut CaseInfo, mut extra: impl FnMu
                     let used = exp.accepted.get(ca).map(|x| x.0);
                     let fetched = state.local.get(ca).copied();
                     if used != Some(*v) && fetched == Some(*v) && used.is_some() {
-                        key = format!("{}/abandoned-update-leaks-into-stored", id);
+                        // items of the model's version served as well => two versions mixed; else the wrong version was used
+                        let mixed = served.iter().any(|it| owners.get(it).map(|(c2, v2, _)| c2 == ca && Some(*v2) == used).unwrap_or(false));
+                        key = if mixed { format!("{}/abandoned-update-leaks-into-stored", id) } else { format!("{}/fetched-version-used-instead-of-stored", id) };
                     } else if used != Some(*v) {
                         key = format!("{}/item-of-unused-version", id);
                     }
